@@ -951,7 +951,16 @@ def run_batch(case):
         out['skip'] = 'setup/encode:' + type(e).__name__
         return out
     px, py = c02.disk_points(random.Random(case['seed']), case['nray'])
-    rec = c02.trace_case(o, case['Hy'], px, py, w)
+    hy = np.full(case['nray'], float(case['Hy']))
+    if case.get('mixed'):
+        hy[1::2] = 0.0
+        try:
+            o.trace_generic(np.zeros(case['nray']), hy.copy(), px.copy(), py.copy(), w)
+            rec = realenc.impl_records(o)
+        except Exception as e:  # noqa
+            rec = ('error', type(e).__name__)
+    else:
+        rec = c02.trace_case(o, case['Hy'], px, py, w)
     if isinstance(rec, tuple):
         out['skip'] = 'impl_error:' + rec[1]
         return out
@@ -965,7 +974,7 @@ def run_batch(case):
     out['alone'] = []
     for i in case['pick']:
         i = i % case['nray']
-        ra = c02.trace_case(o, case['Hy'], px[i:i + 1], py[i:i + 1], w)
+        ra = c02.trace_case(o, float(hy[i]), px[i:i + 1], py[i:i + 1], w)
         if isinstance(ra, tuple):
             out['alone'].append((i, ra))
             continue
@@ -1191,9 +1200,18 @@ def gen_cases(ctx):
         if rng.random() < 0.1:
             d['aperture'] = ['EPD', dyadic(rng, 10, 40, 2)]
         nray = rng.randint(2, 24)
+        if rng.random() < 0.15:
+            # an exact paraboloid (the conic quadratic degenerates to its linear branch for rays parallel to the axis)
+            std = [sf for sf in d['surfaces'][1:-1] if sf.get('surface_type', 'standard') == 'standard'
+                   and sf.get('radius', 'inf') != 'inf']
+            if std:
+                rng.choice(std)['conic'] = -1.0
         cases.append({'kind': 'batch', 'setup': {'desc': d}, 'Hy': rng.choice([0.0, 1.0, rng.uniform(-1, 1)]),
                       'nray': nray, 'seed': rng.randint(0, 10 ** 9), 'wi': rng.randint(0, 2),
-                      'pick': [rng.randrange(nray) for _ in range(3)]})
+                      'pick': [rng.randrange(nray) for _ in range(3)],
+                      # one call may carry rays of several field points (array-valued Hx, Hy, as GridDistortion does):
+                      # every second ray then belongs to the axial field
+                      'mixed': rng.random() < 0.35})
     return cases
 
 
